@@ -89,6 +89,11 @@ func TestModelsAgainstStdlib(t *testing.T) {
 			if VerifModelReplaceAll(s, sep, "xy") != strings.ReplaceAll(s, sep, "xy") {
 				t.Fatalf("ReplaceAll(%q,%q)", s, sep)
 			}
+			for _, n := range []int{-1, 0, 1, 2} {
+				if VerifModelReplace(s, sep, "xy", n) != strings.Replace(s, sep, "xy", n) {
+					t.Fatalf("Replace(%q,%q,%d)", s, sep, n)
+				}
+			}
 		}
 		for _, set := range []string{" ", " \t", "a:"} {
 			if VerifModelTrimLeft(s, set) != strings.TrimLeft(s, set) || VerifModelTrimRight(s, set) != strings.TrimRight(s, set) || VerifModelTrim(s, set) != strings.Trim(s, set) {
